@@ -2,7 +2,7 @@
 import time
 
 from .. import gen, canon
-from ..ref import rtree
+from ..ref import rtree, rtree_core
 from ..common import short
 
 LEVEL = "exploration"
@@ -27,7 +27,11 @@ ASSUMPTIONS = [
 ALL_SWITCHES = ["special-set-html5lib", "ruby-no-rb-rtc", "aaa-html5lib", "command-is-void-in-head", "p-closers-html5lib",
                 "isindex-expansion", "textarea-text-handled-in-body-mode", "after-body-space-no-reconstruct",
                 "fragment-noscript-always-rawtext", "fragment-form-context-no-pointer", "foreign-attr-xml-base",
-                "end-tag-other-ignores-namespace", "template-unsupported"]
+                "end-tag-other-ignores-namespace", "template-unsupported", "h5-character-token-granularity",
+                "nested-table-start-not-reprocessed-in-fragment", "implied-end-tag-in-table-resets-foster-parenting",
+                "cell-caption-space-not-in-body-rules", "newline-drop-tied-to-in-body-space-handler",
+                "table-text-regardless-of-current-node", "table-text-not-flushed-by-doctype", "foster-target-test-by-name",
+                "reprocess-request-dropped-in-table-voodoo", "reset-mode-cell-context-in-fragment"]
 
 
 LOOPS = []
@@ -36,7 +40,7 @@ LOOPS = []
 def model(text, ctx_el, scripting, switches):
     try:
         return rtree.parse(text, ctx_el, scripting, switches)
-    except rtree.NotModelled:
+    except (rtree.NotModelled, rtree_core.NotModelledCore):
         return None
     except rtree.ModelLoop as e:
         LOOPS.append((text, ctx_el, tuple(switches), str(e)))
